@@ -7,6 +7,7 @@
   the correspondence check (`map_read`, both views, after every step).
 -/
 import XotModel.Lemmas.ForestBasic
+import XotModel.Lemmas.FmapMove
 
 namespace XotModel.Props
 open XotModel
@@ -28,5 +29,471 @@ theorem C11_remove_absent (f : Forest) (k : Forest.MapKind) (p key : Nat)
 theorem C11_nonelement_panics (f : Forest) (k : Forest.MapKind) (p : Nat) (entry : Value)
     (he : f.isElement p = false) : f.mapInsert k p entry = (f, .panic) := by
   simp [Forest.mapInsert, he]
+
+/-! ## Refinement to an insertion-ordered map
+
+  `Fmap.abs k f e` (Model/FmapSpec.lean) is the attribute / namespace view of `e` as an
+  association list `(key, payload)` in child order; `omInsert` / `omRemove` / `omClear` are the
+  reference ordered map (existing key: value replaced in place; new key: appended at the end).
+  All theorems below hold for every forest satisfying `Forest.Inv` and every live element. -/
+
+open Fmap
+
+/-- `insert(key, value)` (`set_attribute`, `set_namespace`): the view becomes `omInsert`; no
+    panic, no error. -/
+theorem C11_refine_insert (f : Forest) (hi : f.Inv) (k : Forest.MapKind) (e : Nat) (entry : Value)
+    (he : f.isElement e = true) (hm : k.matches entry = true) :
+    abs k (f.mapInsert k e entry).1 e = omInsert (abs k f e) (Forest.entryKey entry) (payloadOf entry) ∧
+    (f.mapInsert k e entry).2 = .ok := by
+  obtain ⟨nm, N, A, S, h⟩ := minv_of_inv f e hi he
+  obtain ⟨hr, hok⟩ := mapInsert_refines h k entry hm
+  exact ⟨hr.abs_same, hok⟩
+
+/-- Updating an existing key keeps every entry node of the view in its position with its
+    handle (`nodes()` is unchanged); a new key is carried by a fresh node placed last. -/
+theorem C11_insert_nodes (f : Forest) (hi : f.Inv) (k : Forest.MapKind) (e : Nat) (entry : Value)
+    (he : f.isElement e = true) (hm : k.matches entry = true) :
+    (∀ n, f.mapGetNode k e (Forest.entryKey entry) = some n →
+      absNodes k (f.mapInsert k e entry).1 e = absNodes k f e) ∧
+    (f.mapGetNode k e (Forest.entryKey entry) = none →
+      absNodes k (f.mapInsert k e entry).1 e = absNodes k f e ++ [f.next]) := by
+  obtain ⟨nm, N, A, S, h⟩ := minv_of_inv f e hi he
+  obtain ⟨s', st, _, _, h1, h2⟩ := mapInsert_step h k entry hm
+  constructor
+  · intro n hn; rw [st.nodes_same, h1 n hn, h.absNodes_eq]
+  · intro hn; rw [st.nodes_same, h2 hn, h.absNodes_eq]
+
+/-- `remove(key)` (`remove_attribute`, `remove_namespace`): the view becomes `omRemove`; the
+    remaining entry nodes keep their relative order and handles. -/
+theorem C11_refine_remove (f : Forest) (hi : f.Inv) (k : Forest.MapKind) (e key : Nat)
+    (he : f.isElement e = true) :
+    abs k (f.mapRemove k e key).1 e = omRemove (abs k f e) key ∧
+    (f.mapRemove k e key).2 = .ok ∧
+    (absNodes k (f.mapRemove k e key).1 e).Sublist (absNodes k f e) := by
+  obtain ⟨nm, N, A, S, h⟩ := minv_of_inv f e hi he
+  obtain ⟨s', st, hok, hmap, hsub⟩ := mapRemove_step h k key
+  refine ⟨?_, hok, ?_⟩
+  · rw [st.abs_same, hmap, h.abs_eq]
+  · rw [st.nodes_same, h.absNodes_eq]; exact hsub
+
+/-- `clear()`: the view becomes empty. -/
+theorem C11_refine_clear (f : Forest) (hi : f.Inv) (k : Forest.MapKind) (e : Nat)
+    (he : f.isElement e = true) :
+    abs k (f.mapClear k e).1 e = omClear (abs k f e) ∧ (f.mapClear k e).2 = .ok := by
+  obtain ⟨nm, N, A, S, h⟩ := minv_of_inv f e hi he
+  obtain ⟨st, hok⟩ := mapClear_step h k
+  exact ⟨by rw [st.abs_same]; rfl, hok⟩
+
+/-- `append_attribute_node` / `append_namespace_node` of a detached (parentless) entry node
+    `nd` with value `v`: the view becomes `omInsert`.  If the key exists, the EXISTING node keeps
+    its place and handle, takes the new value and is the node returned, and `nd` stays where it
+    was (parentless, same value).  Otherwise `nd` itself becomes the last entry and is returned. -/
+theorem C11_refine_insert_node (f : Forest) (hi : f.Inv) (k : Forest.MapKind) (e nd : Nat) (v : Value)
+    (he : f.isElement e = true) (hroot : f.isRoot nd = true) (hval : f.value? nd = some v)
+    (hm : k.matches v = true) :
+    abs k (f.appendEntryNode k e nd).1 e = omInsert (abs k f e) (Forest.entryKey v) (payloadOf v) ∧
+    (f.appendEntryNode k e nd).2.1 = .ok ∧
+    (∀ n, f.mapGetNode k e (Forest.entryKey v) = some n →
+      (f.appendEntryNode k e nd).2.2 = n.handle ∧
+      absNodes k (f.appendEntryNode k e nd).1 e = absNodes k f e ∧
+      HTree.node nd v [] ∈ (f.appendEntryNode k e nd).1.roots) ∧
+    (f.mapGetNode k e (Forest.entryKey v) = none →
+      (f.appendEntryNode k e nd).2.2 = nd ∧
+      absNodes k (f.appendEntryNode k e nd).1 e = absNodes k f e ++ [nd]) := by
+  obtain ⟨nm, N, A, S, h⟩ := minv_of_inv f e hi he
+  have hleaf := leafRoot_of_inv f hi k nd v hroot hval hm
+  obtain ⟨s', roots0, st, hok, hmap, _, h1, h2⟩ := appendEntryNode_step h k nd v hm hleaf
+  refine ⟨by rw [st.abs_same, hmap, h.abs_eq], hok, ?_, ?_⟩
+  · intro n hn
+    obtain ⟨a, b, c, _⟩ := h1 n hn
+    exact ⟨a, by rw [st.nodes_same, b, h.absNodes_eq], c⟩
+  · intro hn
+    obtain ⟨a, b, _⟩ := h2 hn
+    exact ⟨a, by rw [st.nodes_same, b, h.absNodes_eq]⟩
+
+/-- `any_append` of an attribute / namespace node is `append_attribute_node` /
+    `append_namespace_node`, so `C11_refine_insert_node` covers it. -/
+theorem C11_any_append_entry (f : Forest) (k : Forest.MapKind) (e nd : Nat) (v : Value)
+    (hval : f.value? nd = some v) (hm : k.matches v = true) :
+    f.anyAppend e nd = f.appendEntryNode k e nd := anyAppend_entry f k e nd v hval hm
+
+/-- An update of one view does not change the other view (content and nodes). -/
+theorem C11_other_view_untouched (f : Forest) (hi : f.Inv) (k k' : Forest.MapKind) (e : Nat)
+    (he : f.isElement e = true) (hk : k' ≠ k) :
+    (∀ entry, k.matches entry = true →
+      abs k' (f.mapInsert k e entry).1 e = abs k' f e ∧
+      absNodes k' (f.mapInsert k e entry).1 e = absNodes k' f e) ∧
+    (∀ key, abs k' (f.mapRemove k e key).1 e = abs k' f e ∧
+      absNodes k' (f.mapRemove k e key).1 e = absNodes k' f e) ∧
+    (abs k' (f.mapClear k e).1 e = abs k' f e ∧ absNodes k' (f.mapClear k e).1 e = absNodes k' f e) ∧
+    (∀ nd v, f.isRoot nd = true → f.value? nd = some v → k.matches v = true →
+      abs k' (f.appendEntryNode k e nd).1 e = abs k' f e ∧
+      absNodes k' (f.appendEntryNode k e nd).1 e = absNodes k' f e) := by
+  obtain ⟨nm, N, A, S, h⟩ := minv_of_inv f e hi he
+  refine ⟨?_, ?_, ?_, ?_⟩
+  · intro entry hm
+    obtain ⟨s', st, _⟩ := mapInsert_step h k entry hm
+    exact ⟨st.abs_other h hk, st.nodes_other h hk⟩
+  · intro key
+    obtain ⟨s', st, _⟩ := mapRemove_step h k key
+    exact ⟨st.abs_other h hk, st.nodes_other h hk⟩
+  · obtain ⟨st, _⟩ := mapClear_step h k
+    exact ⟨st.abs_other h hk, st.nodes_other h hk⟩
+  · intro nd v hroot hval hm
+    obtain ⟨s', roots0, st, _⟩ :=
+      appendEntryNode_step h k nd v hm (leafRoot_of_inv f hi k nd v hroot hval hm)
+    exact ⟨st.abs_other h hk, st.nodes_other h hk⟩
+
+/-- Frame.  After `insert` / `remove` / `clear` on view `k` of `e`, the forest is the old
+    forest in which only the child list of `e` was replaced (`Fmap.withKids`: every other node,
+    every other tree, every handle as before; `next` may have grown), and within that child
+    list everything that is not an entry of view `k` — the normal children with their subtrees
+    and the other view's nodes — is the same, in the same order. -/
+theorem C11_children_untouched (f : Forest) (hi : f.Inv) (k : Forest.MapKind) (e : Nat)
+    (he : f.isElement e = true) :
+    ∃ nm ks, f.get? e = some (.node e (.element nm) ks) ∧
+    ∀ f', ((∃ entry, k.matches entry = true ∧ f' = (f.mapInsert k e entry).1) ∨
+           (∃ key, f' = (f.mapRemove k e key).1) ∨ f' = (f.mapClear k e).1) →
+      ∃ ks', f' = { f with roots := withKids f.roots e ks', next := f'.next } ∧
+        ks'.filter (fun c => !k.matches c.value) = ks.filter (fun c => !k.matches c.value) := by
+  obtain ⟨nm, N, A, S, h⟩ := minv_of_inv f e hi he
+  refine ⟨nm, _, h.loc.get, ?_⟩
+  have fin : ∀ f' s', Step f f' e nm N A S k f.roots s' →
+      ∃ ks', f' = { f with roots := withKids f.roots e ks', next := f'.next } ∧
+        ks'.filter (fun c => !k.matches c.value) =
+          (N ++ A ++ S).filter (fun c => !k.matches c.value) := by
+    intro f' s' st
+    obtain ⟨ks, ks', hg, hst, hfil⟩ := st.frame h
+    rw [h.loc.get] at hg
+    simp only [Option.some.injEq, HTree.node.injEq, true_and] at hg
+    exact ⟨ks', hst, by rw [hfil, hg]⟩
+  intro f' hf'
+  rcases hf' with ⟨entry, hm, rfl⟩ | ⟨key, rfl⟩ | rfl
+  · obtain ⟨s', st, _⟩ := mapInsert_step h k entry hm
+    exact fin _ s' st
+  · obtain ⟨s', st, _⟩ := mapRemove_step h k key
+    exact fin _ s' st
+  · obtain ⟨st, _⟩ := mapClear_step h k
+    exact fin _ [] st
+
+/-- Frame of the node-style insertion: as above, except that the detached node leaves the
+    parentless trees when it is placed (it stays among them when its key already exists). -/
+theorem C11_children_untouched_node (f : Forest) (hi : f.Inv) (k : Forest.MapKind) (e nd : Nat)
+    (v : Value) (he : f.isElement e = true) (hroot : f.isRoot nd = true)
+    (hval : f.value? nd = some v) (hm : k.matches v = true) :
+    ∃ nm ks ks' roots0, f.get? e = some (.node e (.element nm) ks) ∧
+      (roots0 = f.roots ∨ roots0 = rootsWithout f nd) ∧
+      (f.appendEntryNode k e nd).1 = { f with roots := withKids roots0 e ks' } ∧
+      ks'.filter (fun c => !k.matches c.value) = ks.filter (fun c => !k.matches c.value) := by
+  obtain ⟨nm, N, A, S, h⟩ := minv_of_inv f e hi he
+  have hleaf := leafRoot_of_inv f hi k nd v hroot hval hm
+  obtain ⟨s', roots0, st, _, _, hnext, h1, h2⟩ := appendEntryNode_step h k nd v hm hleaf
+  obtain ⟨ks, ks', hg, hst, hfil⟩ := st.frame h
+  refine ⟨nm, ks, ks', roots0, hg, ?_, ?_, hfil⟩
+  · cases hn : f.mapGetNode k e (Forest.entryKey v) with
+    | none => exact Or.inr (h2 hn).2.2
+    | some n => exact Or.inl (h1 n hn).2.2.2
+  · rw [hnext] at hst
+    exact hst
+
+/-- Node-style removal.  `remove(node)` of an entry node of view `k` of `e` IS `remove(key)` on
+    the view, for the key under which `get_node` returns that node (so `C11_refine_remove`
+    applies); `detach(node)` has the same effect on the view (`omRemove`), leaves the other view
+    alone, and the node becomes a parentless tree keeping its value. -/
+theorem C11_refine_remove_node (f : Forest) (hi : f.Inv) (k : Forest.MapKind) (e hd : Nat)
+    (he : f.isElement e = true) (hm : hd ∈ absNodes k f e) :
+    ∃ n, f.mapGetNode k e (Forest.entryKey n.value) = some n ∧ n.handle = hd ∧
+      f.remove hd = f.mapRemove k e (Forest.entryKey n.value) ∧
+      abs k (f.detach hd).1 e = omRemove (abs k f e) (Forest.entryKey n.value) ∧
+      (f.detach hd).2 = .ok ∧ n ∈ (f.detach hd).1.roots ∧
+      (∀ k', k' ≠ k → abs k' (f.detach hd).1 e = abs k' f e) := by
+  obtain ⟨nm, N, A, S, h⟩ := minv_of_inv f e hi he
+  obtain ⟨n, hg, hh, hrem⟩ := remove_node_eq h k hd hm
+  have hn : n ∈ Sect.sec k N A := by
+    rw [h.getNode k] at hg
+    exact List.mem_of_find?_eq_some hg
+  obtain ⟨s', st, hok, hmap, hroot⟩ := detach_node_step h k n hn
+  rw [hh] at st hok hroot
+  refine ⟨n, hg, hh, hrem, ?_, hok, hroot, fun k' hk => st.abs_other h hk⟩
+  rw [st.abs_same, hmap, h.abs_eq k]
+  rfl
+
+/-- `append_*_node` / `any_append` of ANY live entry node — detached, or still attached to this
+    or another element — whose key the view already has: the view becomes `omInsert`, the
+    existing node keeps place and handle, takes the value and is returned, and the forest changes
+    by that one value only (the passed node stays where it is). -/
+theorem C11_insert_node_existing_key (f : Forest) (hi : f.Inv) (k : Forest.MapKind) (e nd : Nat)
+    (v : Value) (n : HTree) (he : f.isElement e = true) (hval : f.value? nd = some v)
+    (hm : k.matches v = true) (hn : f.mapGetNode k e (Forest.entryKey v) = some n) :
+    f.appendEntryNode k e nd =
+      (f.setValue n.handle (Forest.entryUpdate n.value v), .ok, n.handle) ∧
+    abs k (f.appendEntryNode k e nd).1 e = omInsert (abs k f e) (Forest.entryKey v) (payloadOf v) ∧
+    absNodes k (f.appendEntryNode k e nd).1 e = absNodes k f e ∧
+    (f.appendEntryNode k e nd).1.Inv := by
+  obtain ⟨nm, N, A, S, h⟩ := minv_of_inv f e hi he
+  obtain ⟨s', st, heq, hmap, hnodes⟩ := appendEntryNode_existing h k nd v hval hm n hn
+  exact ⟨heq, by rw [st.abs_same, hmap, h.abs_eq], by rw [st.nodes_same, hnodes, h.absNodes_eq],
+    inv_of_step_same hi h st⟩
+
+/-- `append_*_node` / `any_append` of an entry node that is still attached to ANOTHER element
+    `e2`, when the view of `e` lacks its key: the node moves.  `e` gains the entry at the end,
+    carried by the same node, which is returned; `e2` loses it (`omRemove`); the other view of
+    both elements is untouched; the invariant is kept.  (With the key present in `e`,
+    `C11_insert_node_existing_key` applies and the node does not move.) -/
+theorem C11_move_node (f : Forest) (hi : f.Inv) (k : Forest.MapKind) (e e2 hd : Nat)
+    (he : f.isElement e = true) (he2 : f.isElement e2 = true) (hne : e ≠ e2)
+    (hm : hd ∈ absNodes k f e2) :
+    ∃ n, f.mapGetNode k e2 (Forest.entryKey n.value) = some n ∧ n.handle = hd ∧
+      (f.mapGetNode k e (Forest.entryKey n.value) = none →
+        (f.appendEntryNode k e hd).2 = (.ok, hd) ∧
+        abs k (f.appendEntryNode k e hd).1 e =
+          omInsert (abs k f e) (Forest.entryKey n.value) (payloadOf n.value) ∧
+        absNodes k (f.appendEntryNode k e hd).1 e = absNodes k f e ++ [hd] ∧
+        abs k (f.appendEntryNode k e hd).1 e2 = omRemove (abs k f e2) (Forest.entryKey n.value) ∧
+        (∀ k', k' ≠ k → abs k' (f.appendEntryNode k e hd).1 e = abs k' f e ∧
+          abs k' (f.appendEntryNode k e hd).1 e2 = abs k' f e2) ∧
+        (f.appendEntryNode k e hd).1.Inv) :=
+  move_node f hi k e e2 hd he he2 hne hm
+
+/-- `append_*_node` / `any_append` of a node that already is an entry of this view of this
+    element is the identity and returns that node. -/
+theorem C11_append_own_node (f : Forest) (hi : f.Inv) (k : Forest.MapKind) (e hd : Nat)
+    (he : f.isElement e = true) (hm : hd ∈ absNodes k f e) :
+    f.appendEntryNode k e hd = (f, .ok, hd) := by
+  obtain ⟨nm, N, A, S, h⟩ := minv_of_inv f e hi he
+  rw [h.absNodes_eq k] at hm
+  obtain ⟨n, hn, hh⟩ := List.mem_map.mp hm
+  rw [← hh]
+  exact appendEntryNode_own h k n hn
+
+/-- Keys are distinct in both views of every node of a forest satisfying the invariant. -/
+theorem C11_unique_keys (f : Forest) (hi : f.Inv) (k : Forest.MapKind) (e : Nat) :
+    omWf (abs k f e) := unique_keys_of_inv f hi k e
+
+/-- The reference map stays a map: `omInsert` / `omRemove` keep keys distinct, a lookup after an
+    update sees exactly that update, and `omRemove` leaves no entry of the key. -/
+theorem C11_reference_is_a_map (m : OMap Payload) (key : Nat) (p : Payload) (hw : omWf m) :
+    omWf (omInsert m key p) ∧ omWf (omRemove m key) ∧
+    omGet (omInsert m key p) key = some p ∧ omGet (omRemove m key) key = none ∧
+    (∀ k', k' ≠ key → omGet (omInsert m key p) k' = omGet m k' ∧ omGet (omRemove m key) k' = omGet m k') ∧
+    omRemove m key = m.filter (fun q => q.1 != key) ∧
+    (omGet m key = none → omInsert m key p = m ++ [(key, p)]) :=
+  ⟨omWf_insert m key p hw, omWf_remove m key hw, omGet_insert_self m key p,
+    omGet_remove_self m key hw,
+    fun k' hk => ⟨omGet_insert_other m key k' p hk, omGet_remove_other m key k' hk⟩,
+    omRemove_eq_filter m key hw, omInsert_of_get_none m key p⟩
+
+/-- The reads.  `get_node(key)` finds a node of the view carrying the key; `get`, `contains_key`
+    agree with the reference lookup; what the driver's `map_read` prints (`len`, `is_empty`, the
+    `iter()` pairs = `keys()` zipped with `values()`, `nodes()`) are the reference map's `omLen`,
+    `omIsEmpty`, `omKeys`, `omValues` (no hypothesis needed: one definition of the content). -/
+theorem C11_reads (f : Forest) (k : Forest.MapKind) (e key : Nat) :
+    (f.mapGetNode k e key).map (fun c => payloadOf c.value) = omGet (abs k f e) key ∧
+    (f.mapGetNode k e key).isSome = omContainsKey (abs k f e) key ∧
+    (∀ n, f.mapGetNode k e key = some n → n.handle ∈ absNodes k f e ∧ Forest.entryKey n.value = key) ∧
+    (∀ t, f.get? e = some t →
+      (Forest.mapChildren k t).length = omLen (abs k f e) ∧
+      (Forest.mapChildren k t).isEmpty = omIsEmpty (abs k f e) ∧
+      (Forest.mapChildren k t).map (fun c => Forest.entryKey c.value) = omKeys (abs k f e) ∧
+      (Forest.mapChildren k t).map (fun c => payloadOf c.value) = omValues (abs k f e) ∧
+      (Forest.mapChildren k t).map (·.handle) = absNodes k f e) :=
+  ⟨get_eq f k e key, containsKey_eq f k e key, getNode_mem f k e key, reads_eq f k e⟩
+
+/-- Histories.  Any sequence of map-style updates (`insert`, `remove`, `clear`) and node-style
+    updates (a fresh attribute / namespace node appended with `append_*_node` = `any_append`) of
+    both views of one element, from any forest satisfying the invariant: no step panics or
+    fails, after the history each view equals the reference map fed the steps addressed to
+    it (`specOps`), and the whole invariant holds again. -/
+theorem C11_histories (f : Forest) (hi : f.Inv) (e : Nat) (he : f.isElement e = true)
+    (ops : List MapOp) (hwf : ∀ op ∈ ops, op.wf = true) :
+    (∀ r ∈ (runOps e f ops).2, r = .ok) ∧
+    (∀ k, abs k (runOps e f ops).1 e = specOps k (abs k f e) ops) ∧
+    (∀ k, omWf (abs k (runOps e f ops).1 e)) ∧
+    (runOps e f ops).1.isElement e = true ∧ (runOps e f ops).1.Inv := by
+  obtain ⟨nm, N, A, S, h⟩ := minv_of_inv f e hi he
+  obtain ⟨N', A', h', hok, hv⟩ := runOps_spec e nm S ops f N A h hwf
+  refine ⟨hok, hv, ?_, h'.isElement, runOps_inv e ops f hi he hwf⟩
+  intro k
+  rw [h'.abs_eq k]
+  have := h'.uniq k
+  simpa [omWf, omKeys, List.map_map, Function.comp_def, entryPair_fst] using this
+
+/-- One step of a history, for chaining with other operations: the outcome, both views, and that
+    the element is still a live element. -/
+theorem C11_step (f : Forest) (hi : f.Inv) (e : Nat) (he : f.isElement e = true) (op : MapOp)
+    (hwf : op.wf = true) :
+    (op.run e f).2 = .ok ∧ (∀ k, abs k (op.run e f).1 e = op.specFor k (abs k f e)) ∧
+    (op.run e f).1.isElement e = true ∧ (op.run e f).1.Inv := by
+  obtain ⟨nm, N, A, S, h⟩ := minv_of_inv f e hi he
+  obtain ⟨N', A', h', hok, hv⟩ := op_step h op hwf
+  exact ⟨hok, hv, h'.isElement, op_inv f hi e he op hwf⟩
+
+/-- The map operations preserve the whole invariant of C04 (`Forest.Inv`: distinct handles below
+    `next`, every tree structurally valid, …), so they can be chained with any other operation
+    proved to preserve it: `insert`, `remove`, `clear`, `append_*_node` of a detached entry node,
+    `detach` of an entry node (`remove` of one is `remove(key)`, `C11_refine_remove_node`). -/
+theorem C11_preserves_inv (f : Forest) (hi : f.Inv) (k : Forest.MapKind) (e : Nat)
+    (he : f.isElement e = true) :
+    (∀ entry, k.matches entry = true → (f.mapInsert k e entry).1.Inv) ∧
+    (∀ key, (f.mapRemove k e key).1.Inv) ∧ (f.mapClear k e).1.Inv ∧
+    (∀ nd v, f.isRoot nd = true → f.value? nd = some v → k.matches v = true →
+      (f.appendEntryNode k e nd).1.Inv) ∧
+    (∀ hd, hd ∈ absNodes k f e → (f.detach hd).1.Inv) :=
+  ⟨fun entry hm => mapInsert_inv f hi k e entry he hm, fun key => mapRemove_inv f hi k e key he,
+    mapClear_inv f hi k e he, fun nd v hr hv hm => appendEntryNode_inv f hi k e nd v he hr hv hm,
+    fun hd hm => detach_node_inv f hi k e hd he hm⟩
+
+/-! ### The entry API (nodemap/entry.rs, modelled in Model/FmapEntry.lean) and `get_mut` -/
+
+/-- `entry(key).or_insert(default)` / `or_insert_with` / `or_default`: an occupied entry is left
+    alone, a vacant one is inserted last; never panics (the `unwrap`s inside are safe). -/
+theorem C11_entry_or_insert (f : Forest) (hi : f.Inv) (k : Forest.MapKind) (e : Nat) (default : Value)
+    (he : f.isElement e = true) (hm : k.matches default = true) :
+    abs k (f.entryOrInsert k e default).1 e =
+      (if omContainsKey (abs k f e) (Forest.entryKey default) then abs k f e
+       else omInsert (abs k f e) (Forest.entryKey default) (payloadOf default)) ∧
+    (f.entryOrInsert k e default).2 = .ok ∧
+    (∀ k', k' ≠ k → abs k' (f.entryOrInsert k e default).1 e = abs k' f e) := by
+  obtain ⟨nm, N, A, S, h⟩ := minv_of_inv f e hi he
+  obtain ⟨hr, hok⟩ := entryOrInsert_refines h k default hm
+  exact ⟨hr.abs_same, hok, fun k' hk => hr.abs_other h hk⟩
+
+theorem C11_entry_or_default (f : Forest) (hi : f.Inv) (e name : Nat) (he : f.isElement e = true) :
+    abs .attributes (f.entryOrDefault e name).1 e =
+      (if omContainsKey (abs .attributes f e) name then abs .attributes f e
+       else omInsert (abs .attributes f e) name (.str [])) ∧
+    (f.entryOrDefault e name).2 = .ok :=
+  let r := C11_entry_or_insert f hi .attributes e (.attribute name []) he rfl
+  ⟨r.1, r.2.1⟩
+
+/-- `entry(key).and_modify(g)`: the stored value is rewritten in place, a vacant entry is left. -/
+theorem C11_entry_and_modify (f : Forest) (hi : f.Inv) (k : Forest.MapKind) (e key : Nat)
+    (g : Value → Value) (he : f.isElement e = true)
+    (hg : ∀ v, k.matches v = true → k.matches (g v) = true) :
+    abs k (f.entryAndModify k e key g).1 e =
+      omModify (abs k f e) key (fun p => payloadOf (g (mkEntry k key p))) ∧
+    (f.entryAndModify k e key g).2.1 = .ok ∧
+    (∀ k', k' ≠ k → abs k' (f.entryAndModify k e key g).1 e = abs k' f e) := by
+  obtain ⟨nm, N, A, S, h⟩ := minv_of_inv f e hi he
+  obtain ⟨hr, hok, _⟩ := entryAndModify_refines h k key g hg
+  exact ⟨hr.abs_same, hok, fun k' hk => hr.abs_other h hk⟩
+
+/-- `entry(key).and_modify(g).or_insert(default)`. -/
+theorem C11_entry_and_modify_or_insert (f : Forest) (hi : f.Inv) (k : Forest.MapKind) (e : Nat)
+    (default : Value) (g : Value → Value) (he : f.isElement e = true)
+    (hm : k.matches default = true) (hg : ∀ v, k.matches v = true → k.matches (g v) = true) :
+    (f.entryAndModifyOrInsert k e default g).2 = .ok ∧
+    abs k (f.entryAndModifyOrInsert k e default g).1 e =
+      (if omContainsKey (abs k f e) (Forest.entryKey default)
+       then omModify (abs k f e) (Forest.entryKey default)
+              (fun p => payloadOf (g (mkEntry k (Forest.entryKey default) p)))
+       else omInsert (abs k f e) (Forest.entryKey default) (payloadOf default)) ∧
+    (∀ k', k' ≠ k → abs k' (f.entryAndModifyOrInsert k e default g).1 e = abs k' f e) := by
+  obtain ⟨nm, N, A, S, h⟩ := minv_of_inv f e hi he
+  obtain ⟨_, hok, hs, ho⟩ := entryAndModifyOrInsert_spec h k default g hm hg
+  exact ⟨hok, hs, ho⟩
+
+/-- `match entry(key) { Occupied(o) => o.insert(v), Vacant(va) => va.insert(v) }` is `omInsert`;
+    `if let Occupied(o) = entry(key) { o.remove() }` is `omRemove`; neither `unwrap` panics. -/
+theorem C11_entry_insert_remove (f : Forest) (hi : f.Inv) (k : Forest.MapKind) (e : Nat)
+    (he : f.isElement e = true) :
+    (∀ entry, k.matches entry = true →
+      abs k (f.entryInsert k e entry).1 e = omInsert (abs k f e) (Forest.entryKey entry) (payloadOf entry) ∧
+      (f.entryInsert k e entry).2 = .ok) ∧
+    (∀ key, abs k (f.entryRemove k e key).1 e = omRemove (abs k f e) key ∧
+      (f.entryRemove k e key).2 = .ok) := by
+  obtain ⟨nm, N, A, S, h⟩ := minv_of_inv f e hi he
+  constructor
+  · intro entry hm
+    obtain ⟨hr, hok⟩ := entryInsert_refines h k entry hm
+    exact ⟨hr.abs_same, hok⟩
+  · intro key
+    obtain ⟨hr, hok⟩ := entryRemove_refines h k key
+    exact ⟨hr.abs_same, hok⟩
+
+/-- `get_mut(key)` and a write through the reference: the stored value changes in place; `None`
+    exactly when the key is absent. -/
+theorem C11_get_mut (f : Forest) (hi : f.Inv) (k : Forest.MapKind) (e key : Nat) (new : Value)
+    (he : f.isElement e = true) (hm : k.matches new = true) :
+    abs k (f.mapGetMutSet k e key new).1 e = omModify (abs k f e) key (fun _ => payloadOf new) ∧
+    (f.mapGetMutSet k e key new).2.1 = .ok ∧
+    (f.mapGetMutSet k e key new).2.2 = omContainsKey (abs k f e) key ∧
+    (∀ k', k' ≠ k → abs k' (f.mapGetMutSet k e key new).1 e = abs k' f e) := by
+  obtain ⟨nm, N, A, S, h⟩ := minv_of_inv f e hi he
+  obtain ⟨hr, hok, hb⟩ := mapGetMutSet_refines h k key new hm
+  exact ⟨hr.abs_same, hok, hb, fun k' hk => hr.abs_other h hk⟩
+
+/-- The entry API in one statement (the conjunction of the theorems above): every entry-API call
+    on a live element of a forest satisfying the invariant returns normally and has its
+    reference-map meaning. -/
+theorem C11_entry_api (f : Forest) (hi : f.Inv) (k : Forest.MapKind) (e : Nat)
+    (he : f.isElement e = true) :
+    (∀ d, k.matches d = true →
+      (f.entryOrInsert k e d).2 = .ok ∧
+      abs k (f.entryOrInsert k e d).1 e =
+        (if omContainsKey (abs k f e) (Forest.entryKey d) then abs k f e
+         else omInsert (abs k f e) (Forest.entryKey d) (payloadOf d))) ∧
+    (∀ key g, (∀ v, k.matches v = true → k.matches (g v) = true) →
+      (f.entryAndModify k e key g).2.1 = .ok ∧
+      abs k (f.entryAndModify k e key g).1 e =
+        omModify (abs k f e) key (fun p => payloadOf (g (mkEntry k key p)))) ∧
+    (∀ v, k.matches v = true →
+      (f.entryInsert k e v).2 = .ok ∧
+      abs k (f.entryInsert k e v).1 e = omInsert (abs k f e) (Forest.entryKey v) (payloadOf v)) ∧
+    (∀ key, (f.entryRemove k e key).2 = .ok ∧
+      abs k (f.entryRemove k e key).1 e = omRemove (abs k f e) key) :=
+  ⟨fun d hm => let r := C11_entry_or_insert f hi k e d he hm; ⟨r.2.1, r.1⟩,
+   fun key g hg => let r := C11_entry_and_modify f hi k e key g he hg; ⟨r.2.1, r.1⟩,
+   fun v hm => let r := (C11_entry_insert_remove f hi k e he).1 v hm; ⟨r.2, r.1⟩,
+   fun key => let r := (C11_entry_insert_remove f hi k e he).2 key; ⟨r.2, r.1⟩⟩
+
+/-! ### Serialisation order -/
+
+/-- What the serialisers iterate for an element (`gen_outputs`: `xot.namespaces(node)` then
+    `xot.attributes(node)`, i.e. `Tree.nsDecls` / `Tree.attrs` of the erased element) lists
+    exactly the two views, in `abs` order. -/
+theorem C11_order (f : Forest) (e : Nat) (t : HTree) (h : f.get? e = some t) :
+    (HTree.erase t).nsDecls = absNs f e ∧ (HTree.erase t).attrs = absAttrs f e := by
+  unfold absNs absAttrs Fmap.abs
+  rw [h]
+  exact ⟨nsDecls_erase t, attrs_erase t⟩
+
+/-! ### Non-vacuity -/
+
+/-- A concrete forest: a document with an element carrying one declaration, two attributes and
+    a text, plus a detached attribute node and a detached namespace node. -/
+def c11Example : Forest :=
+  { roots := [.node 0 .document [.node 1 (.element 2)
+      [.node 2 (.namespace 0 2) [], .node 3 (.attribute 3 ['v']) [], .node 4 (.attribute 5 ['w']) [],
+       .node 5 (.text ['x']) []]], .node 6 (.attribute 3 ['n']) [], .node 7 (.namespace 1 3) []],
+    next := 8 }
+
+example : c11Example.Inv ∧ c11Example.isElement 1 = true ∧
+    c11Example.isRoot 6 = true ∧ c11Example.value? 6 = some (.attribute 3 ['n']) :=
+  ⟨(Forest.inv_iff _).mp (by decide), by decide, by decide, by decide⟩
+
+/-- Two elements, for the move. -/
+def c11Example2 : Forest :=
+  { roots := [.node 0 .document [.node 1 (.element 2)
+      [.node 2 (.attribute 3 ['v']) [], .node 3 (.element 4) [.node 4 (.attribute 5 ['w']) []]]]],
+    next := 5 }
+
+example : c11Example2.Inv ∧ c11Example2.isElement 1 = true ∧ c11Example2.isElement 3 = true ∧
+    2 ∈ absNodes .attributes c11Example2 1 ∧
+    abs .attributes (c11Example2.appendEntryNode .attributes 3 2).1 3 = [(5, .str ['w']), (3, .str ['v'])] ∧
+    abs .attributes (c11Example2.appendEntryNode .attributes 3 2).1 1 = [] :=
+  ⟨(Forest.inv_iff _).mp (by decide), by decide, by decide, by decide, by decide, by decide⟩
+
+example : 3 ∈ absNodes .attributes c11Example 1 ∧ 2 ∈ absNodes .namespaces c11Example 1 := by decide
+
+example : abs .attributes c11Example 1 = [(3, .str ['v']), (5, .str ['w'])] ∧
+    abs .attributes (c11Example.mapInsert .attributes 1 (.attribute 3 ['z'])).1 1 =
+      [(3, .str ['z']), (5, .str ['w'])] ∧
+    abs .attributes (c11Example.appendEntryNode .attributes 1 6).1 1 =
+      [(3, .str ['n']), (5, .str ['w'])] ∧
+    abs .namespaces (c11Example.appendEntryNode .namespaces 1 7).1 1 = [(0, .ns 2), (1, .ns 3)] ∧
+    (runOps 1 c11Example [.insert .attributes (.attribute 9 []), .remove .attributes 3,
+      .insertNode .namespaces (.namespace 0 5), .clear .attributes]).2 = [.ok, .ok, .ok, .ok] := by
+  decide
 
 end XotModel.Props
